@@ -9,7 +9,7 @@ from lark.exceptions import UnexpectedToken
 ###{standalone
 
 class ParseConf(Generic[StateT]):
-    __slots__ = 'parse_table', 'callbacks', 'start', 'start_state', 'end_state', 'states'
+    __slots__ = 'parse_table', 'callbacks', 'start', 'start_state', 'end_state', 'states', 'rule_names'
 
     parse_table: ParseTableBase[StateT]
     callbacks: ParserCallbacks
@@ -28,6 +28,15 @@ class ParseConf(Generic[StateT]):
 
         self.callbacks = callbacks
         self.start = start
+
+        # The rows of the table are keyed by bare names, and the name of a terminal is not always upper-case
+        # (terminals of imported rules are called module__NAME, an anonymous "__" is called __).
+        # So remember which keys are rules; all the others are terminals.
+        try:
+            self.rule_names = parse_table.rule_names
+        except AttributeError:
+            # (the callbacks are keyed by rule; token callbacks, keyed by terminal name, may be among them)
+            self.rule_names = parse_table.rule_names = frozenset(k.origin.name for k in callbacks if not isinstance(k, str))
 
 class ParserState(Generic[StateT]):
     __slots__ = 'parse_conf', 'lexer', 'state_stack', 'value_stack'
@@ -76,7 +85,7 @@ class ParserState(Generic[StateT]):
             try:
                 action, arg = states[state][token.type]
             except KeyError:
-                expected = {s for s in states[state].keys() if s.isupper()}
+                expected = {s for s in states[state].keys() if s not in self.parse_conf.rule_names}
                 raise UnexpectedToken(token, expected, state=self, interactive_parser=None)
 
             assert arg != end_state
